@@ -83,6 +83,48 @@ Section C03_all_grammars.
   Proof. exact (emitted_parser_reject_exact kind ho digest src out text pt Hho Hgen Hpt). Qed.
 End C03_all_grammars.
 
+(* ---------- the hypotheses of the all-grammar theorems are met by a concrete source ---------- *)
+
+Definition C03_example_src : str := s2l "start L
+enum L { Nil Cons(L $X) }
+terminal T { $X: () }
+".
+
+Definition C03_example_pt : option ptable :=
+  Eval vm_compute in
+    match generate_full ho_id [] C03_example_src with
+    | Ok (out, _) => ptable_of (go_file out) (go_table out)
+    | _ => None
+    end.
+
+Example C03_all_hypotheses_are_met :
+  exists out text pt,
+    perm_hash_order ho_id /\
+    generate_full ho_id [] C03_example_src = Ok (out, text) /\
+    ptable_of (go_file out) (go_table out) = Some pt /\
+    (forall r ru, nth_error (pt_rules pt) r = Some ru -> exists ts, wfs (fun k : nat => k) pt (pr_rhs ru) ts) /\
+    (exists t, wf (fun k : nat => k) pt (PN (pt_start_nt pt)) t).
+Proof.
+  destruct (generate_full ho_id [] C03_example_src) as [[out text]| | |] eqn:E; try (vm_compute in E; discriminate).
+  assert (Hpt : ptable_of (go_file out) (go_table out) = C03_example_pt).
+  { assert (H : match generate_full ho_id [] C03_example_src with Ok (o, _) => ptable_of (go_file o) (go_table o) | _ => None end = C03_example_pt)
+      by (vm_compute; reflexivity).
+    rewrite E in H. exact H. }
+  unfold C03_example_pt in Hpt.
+  match type of Hpt with _ = Some ?p => exists out, text, p end.
+  split; [split; [intros l; apply Permutation.Permutation_refl|split; intros l; apply Permutation.Permutation_refl]|].
+  split; [reflexivity|]. split; [exact Hpt|]. split.
+  - intros r ru Hr. destruct r as [|[|r]]; cbn in Hr; try (destruct r; discriminate); injection Hr as <-; cbn [pr_rhs].
+    + exists []. constructor.
+    + exists [Node 0 []; Leaf 0]. constructor.
+      * change (PN 0) with (PN (pr_lhs {| pr_lhs := 0; pr_rhs := []; pr_used := [] |})).
+        apply wf_node; [reflexivity|constructor].
+      * constructor; [apply (wf_leaf (fun k : nat => k) _ 0)|constructor].
+  - exists (Node 0 []). cbn [pt_start_nt].
+    change (PN 0) with (PN (pr_lhs {| pr_lhs := 0; pr_rhs := []; pr_used := [] |})).
+    apply wf_node; [reflexivity|constructor].
+Qed.
+
 Print Assumptions C03_reject_position.
 Print Assumptions C03_returns_the_unconsumed_head.
 Print Assumptions C03_all_reject_position.
